@@ -1,7 +1,7 @@
 (* Run/EvalProps.v — per-property projections of the state-machine trace.
    Each property compares only the part of the trace it speaks about, so an
    observable but unrelated rewrite does not alarm properties it does not touch. *)
-Require Export Verif.Run.EvalSM Verif.Model.Monitors Verif.Model.Monitors18 Verif.Model.Monitors2b Verif.Model.Monitors11a Verif.Model.Monitors6r Verif.Model.Monitors5b Verif.Proofs.Monitor.
+Require Export Verif.Run.EvalSM Verif.Model.Monitors Verif.Model.Monitors18 Verif.Model.Monitors2b Verif.Model.Monitors11a Verif.Model.Monitors6r Verif.Model.Monitors5b Verif.Model.Monitors8m Verif.Proofs.Monitor.
 Open Scope N_scope.
 
 Definition is_metric (f : metric -> bool) (a : action) : bool := match a with AMetric m => f m | _ => false end.
@@ -60,7 +60,8 @@ Definition run_c07 := run_sm proj_c07 mon_c07.
 Definition mon_c08 (c : smcase) (t : list action) : bool :=
   match c with KSm _ cfg url cup apps e _ _ =>
     (* the poll interval is part of C08's durable state: its rules are C07's monitor *)
-    accepts step8 (init8 cfg url cup apps (e_store e)) t && accepts step7 (init7 cup (e_store e)) t end.
+    accepts step8 (init8 cfg url cup apps (e_store e)) t && accepts step7 (init7 cup (e_store e)) t
+    && accepts step8m init8m t end.
 Definition run_c08 := run_sm proj_c08 mon_c08.
 Definition mon_c09 (c : smcase) (t : list action) : bool :=
   match c with KSm _ _ _ cup apps e _ _ => accepts step9 (init9 cup apps (e_store e)) t end.
